@@ -251,6 +251,10 @@ func (wd *world) run(proto string, mk func(*lab.Wire) fdo.Transport) error {
 		c := w.Dev.TO2Config(wd.c.Suite, wd.c.Cipher)
 		c.AllowCredentialReuse = true
 		c.DeviceModules = map[string]serviceinfo.DeviceModule{"m": devMod{}}
+		if w.Dev.Kind.Alg == "ec256" || w.Dev.Kind.Alg == "rsa2048" {
+			// a minimal device: HMAC-SHA384 support is optional for P-256 / RSA-2048 keys and left out here
+			c.HmacSha384 = nil
+		}
 		_, err := fdo.TO2(wd.ctx, mk(lab.NewWire(w.Owner)), nil, c)
 		return err
 	}
@@ -259,7 +263,7 @@ func (wd *world) run(proto string, mk func(*lab.Wire) fdo.Transport) error {
 
 // ---------------- mutant sets ----------------
 
-var mutOpts = cbormut.Options{Leaf: true, Inflate: true, IntDomain: []int64{-1, 1, 2, 3, 4, 5, 10, 11, 23, 24, 255, 256, 65535, 65536, -7, -35, -37, -257, 1 << 31}}
+var mutOpts = cbormut.Options{Leaf: true, Inflate: true, IntDomain: []int64{-1, 1, 2, 3, 4, 5, 6, 7, 10, 11, 23, 24, 255, 256, 65535, 65536, -7, -16, -35, -37, -43, -257, 1 << 31}}
 
 // signerFor names the key that signs a COSE_Sign1 found at a site (top level, or element 1 of a top-level array).
 func (wd *world) signerFor(typ int, plain []byte) crypto.Signer {
